@@ -25,7 +25,7 @@ partially filled last row; distinct on (program hash, configuration)";
 
 pub fn packing(c: &Case) -> TablePacking {
     TablePacking::new(1 + (c.public_lanes % 4) as usize, 1 + (c.alu_lanes % 4) as usize)
-        .with_horner_pack_k(2 + (c.horner_k % 3) as usize)
+        .with_horner_pack_k(2 + (c.horner_k % 5) as usize)
         .with_min_trace_height(1usize << (c.log_min_height % 6))
 }
 
@@ -170,7 +170,7 @@ pub fn oracle(c: &Case) -> Report {
 }
 
 pub fn strategy(opts: GenOpts) -> impl Strategy<Value = Case> {
-    (e1::prog_strategy(opts), 0u8..4, 0u8..4, 0u8..3, 0u8..6).prop_map(
+    (e1::prog_strategy(opts), 0u8..4, 0u8..4, prop_oneof![3 => 0u8..3, 1 => 3u8..5], 0u8..6).prop_map(
         |(prog, public_lanes, alu_lanes, horner_k, log_min_height)| Case {
             prog,
             public_lanes,
